@@ -155,13 +155,16 @@ fn vx_vec_u32(x: u32, n: usize) -> (r: Vec<u32>)
 
 // iterator / sort leaves of HashSet::serialize
 spec fn sorted(s: Seq<u32>) -> bool { forall|i: int, j: int| 0 <= i <= j < s.len() ==> s[i] <= s[j] }
+// l is the ascending rearrangement of s (kept opaque: the byte-level reasoning never looks inside)
+#[verifier::opaque]
+spec fn sorted_perm_of(l: Seq<u32>, s: Seq<u32>) -> bool { sorted(l) && l.to_multiset() == s.to_multiset() && l.len() == s.len() }
 #[verifier::external_body]
 fn vx_collect_nonzero(s: &Box<[u32]>) -> (r: Vec<u32>)
   ensures r@ == nz(s@)
 { s.iter().filter(|&&c| c != 0).copied().collect() }
 #[verifier::external_body]
 fn vx_sort_unstable(v: &mut Vec<u32>)
-  ensures sorted(final(v)@), final(v)@.to_multiset() == old(v)@.to_multiset(), final(v)@.len() == old(v)@.len()
+  ensures sorted_perm_of(final(v)@, old(v)@), final(v)@.len() == old(v)@.len()
 { v.sort_unstable() }
 
 // =====================================================================================================================
@@ -377,6 +380,7 @@ impl List {
         }
     }
 
+    #[verifier::loop_isolation(false)]
     fn deserialize(
         mut cursor: SketchSlice,
         lg_arr: usize,
@@ -386,12 +390,12 @@ impl List {
     ) -> (r: Result<Self, Error>)
       requires lg_arr <= 255, coupon_count <= 255,    // each comes from ONE header byte (HllSketch::deserialize: `lg_arr as usize`, `state as usize`); nothing else is assumed
       ensures
-        /*@C13.list.accepts*/ lg_arr <= 18 && cursor.rem().len() >= 4 * (if compact { coupon_count as int } else { pow2(lg_arr as nat) as int }) ==> r is Ok,
-        /*@C14.list.rejects_truncated*/ !empty && coupon_count > 0 && cursor.rem().len() < 4 * (if compact { coupon_count as int } else { pow2(lg_arr as nat) as int }) ==> r is Err,
+        /*@C13.list.accepts*/ (compact || lg_arr <= 18) && cursor.rem().len() >= 4 * (if compact { coupon_count as int } else { pow2(lg_arr as nat) as int }) ==> r is Ok,
+        /*@C14.list.rejects_truncated*/ (compact || lg_arr <= 26) && !empty && coupon_count > 0 && cursor.rem().len() < 4 * (if compact { coupon_count as int } else { pow2(lg_arr as nat) as int }) ==> r is Err,
         /*@C13.list.lg_arr*/ r matches Ok(a) ==> a.container.lg_size == lg_arr,
         /*@C13.list.count*/ r matches Ok(a) ==> a.container.len == coupon_count,
         /*@C13.list.coupons*/ r matches Ok(a) ==> !empty && coupon_count > 0 ==> a.container.coupons@ == dec_u32s(cursor.rem(), a.container.coupons@.len() as int),
-        /*@C13.list.slots*/ r matches Ok(a) ==> a.container.coupons@.len() == (if compact { coupon_count as int } else { pow2(lg_arr as nat) as int }),
+        /*@C13.list.slots*/ r matches Ok(a) ==> (compact || lg_arr <= 26) ==> a.container.coupons@.len() == (if compact { coupon_count as int } else { pow2(lg_arr as nat) as int }),
         /*@C14.list.wf_lg*/ r matches Ok(a) ==> a.container.wf_lg(),
         /*@C11.C13.list.wf_capacity*/ r matches Ok(a) ==> a.container.wf_capacity(),
         /*@C14.list.wf_len*/ r matches Ok(a) ==> a.container.wf_len(),
@@ -469,7 +473,7 @@ impl List {
         proof {
             let t = tgt_of(hll_type);
             assert(t <= 2 ==> (0u8 & 0x3) | ((t & 0x3) << 2) == 4 * t) by (bit_vector);
-            assert((0u8 | 4u8) | 8u8 == 12u8 && 0u8 | 8u8 == 8u8) by (bit_vector);
+            assert((0u8 | 4u8) | 8u8 == 12u8 && (0u8 | 8u8) | 4u8 == 12u8 && 0u8 | 8u8 == 8u8 && 0u8 | 4u8 == 4u8) by (bit_vector);
         }
         let ghost hdr = bytes@;
         let ghost all = self.container.coupons@;
@@ -557,6 +561,7 @@ impl HashSet {
         coupon == 0 ==> final(self).container.coupons@ == old(self).container.coupons@ && final(self).container.len == old(self).container.len + 1,
     { unimplemented!() }
 
+    #[verifier::loop_isolation(false)]
     fn deserialize(
         mut cursor: SketchSlice,
         lg_arr: usize,
@@ -568,11 +573,11 @@ impl HashSet {
         /*@C13.set.compact.coupons*/ r matches Ok(a) ==> compact ==> cursor.rem().len() >= 4 && ({
             let n = le32_val(cursor.rem().take(4)) as int; let p = cursor.rem().skip(4);
             p.len() >= 4 * n && ((forall|j: int| 0 <= j < n ==> dec_u32_at(p, j) != 0) ==> a.container.cset() == seq_set(dec_u32s(p, n)) && a.container.wf_len()) }),
-        /*@C13.set.table.coupons*/ r matches Ok(a) ==> !compact ==> cursor.rem().len() >= 4 && a.container.len == le32_val(cursor.rem().take(4))
+        /*@C13.set.table.coupons*/ r matches Ok(a) ==> !compact && lg_arr <= 26 ==> cursor.rem().len() >= 4 && a.container.len == le32_val(cursor.rem().take(4))
               && a.container.coupons@ == dec_u32s(cursor.rem().skip(4), pow2(lg_arr as nat) as int),
         /*@C14.set.rejects_truncated*/ cursor.rem().len() < 4 ==> r is Err,
         /*@C14.set.wf_lg*/ r matches Ok(a) ==> a.container.wf_lg(),
-        /*@C14.set.wf_capacity*/ r matches Ok(a) ==> a.container.wf_capacity(),
+        /*@C14.set.wf_capacity*/ r matches Ok(a) ==> lg_arr <= 26 ==> a.container.wf_capacity(),
         /*@C14.set.wf_len*/ r matches Ok(a) ==> a.container.wf_len(),
         /*@C14.set.wf_load*/ r matches Ok(a) ==> a.wf_load(),
     {
@@ -647,7 +652,7 @@ impl HashSet {
     fn serialize(&self, lg_config_k: u8, hll_type: HllType) -> (r: Vec<u8>)
       requires self.container.wf(),
       ensures
-        /*@C12.set.image*/ exists|l: Seq<u32>| sorted(l) && l.to_multiset() == nz(self.container.coupons@).to_multiset()
+        /*@C12.set.image*/ exists|l: Seq<u32>| sorted_perm_of(l, nz(self.container.coupons@))
             && r@ == #[trigger] enc_hll_set(lg_config_k, self.container.lg_size as u8, tgt_of(hll_type), true, self.container.len as u32, l),
         /*@C18.set.size*/ r@.len() == 12 + 4 * self.container.len,
     {
@@ -732,6 +737,150 @@ impl HashSet {
         bytes.into_bytes()
     }
 }
+
+
+// =====================================================================================================================
+// C11 over both contracts (verified clients, not real code): serialize, re-read the header as HllSketch::deserialize does, parse.
+// =====================================================================================================================
+proof fn lemma_nz_contains(s: Seq<u32>, x: u32)
+  ensures nz(s).contains(x) <==> (x != 0 && s.contains(x))
+  decreases s.len()
+{
+    if s.len() > 0 {
+        let d = s.drop_last(); lemma_nz_contains(d, x);
+        assert(d.push(s.last()) =~= s);
+        if s.contains(x) { let j = choose|j: int| 0 <= j < s.len() && s[j] == x; if j < d.len() { assert(d[j] == x); } }
+        if d.contains(x) { let j = choose|j: int| 0 <= j < d.len() && d[j] == x; assert(s[j] == x); }
+        if s.last() != 0 {
+            let n = nz(d);
+            if n.contains(x) { let j = choose|j: int| 0 <= j < n.len() && n[j] == x; assert(n.push(s.last())[j] == x); }
+            assert(n.push(s.last())[n.len() as int] == s.last());
+            if n.push(s.last()).contains(x) { let j = choose|j: int| 0 <= j < n.len() + 1 && n.push(s.last())[j] == x; if j < n.len() { assert(n[j] == x); } }
+        }
+        assert(s[s.len() - 1] == s.last());
+    }
+}
+
+fn c11_roundtrip_list(a: &List, lg_config_k: u8, hll_type: HllType) -> (b: List)
+  requires a.container.wf(), a.container.len <= 255,
+  ensures
+    /*@C11.list.roundtrip*/ nz(b.container.coupons@) == nz(a.container.coupons@) && b.container.len == a.container.len && b.container.lg_size == a.container.lg_size,
+    /*@C11.list.cset*/ b.container.cset() == a.container.cset(),
+{
+    let img = a.serialize(lg_config_k, hll_type);
+    let ghost items = nz(a.container.coupons@);
+    let ghost cnt = a.container.len as u8;
+    proof {
+        lemma_enc_u32s_len(items);
+        assert(img@.skip(8) =~= enc_u32s(items) + Seq::<u8>::empty());
+        lemma_dec_enc_u32s_all(items, Seq::<u8>::empty());
+        let f = coupon_flags(cnt == 0, true);
+        assert((f == 8 || f == 12) ==> ((f & 4 != 0) == (f == 12)) && (f & 8 != 0)) by (bit_vector);
+    }
+    let mut cursor = SketchSlice::new(img.as_slice());
+    let mut hdr = [0u8; 8];
+    let x = cursor.read_exact(&mut hdr);
+    proof { assert(x is Ok); assert(hdr@ =~= img@.take(8)); }
+    let lg_arr = hdr[4] as usize;
+    let coupon_count = hdr[6] as usize;
+    let empty = (hdr[5] & EMPTY_FLAG_MASK) != 0;
+    let compact = (hdr[5] & COMPACT_FLAG_MASK) != 0;
+    let r = List::deserialize(cursor, lg_arr, coupon_count, empty, compact);
+    match r {
+        Ok(b) => {
+            proof {
+                if coupon_count > 0 {
+                    assert forall|j: int| 0 <= j < items.len() implies items[j] != 0 by { lemma_nz_nonzero(a.container.coupons@, j); }
+                    lemma_nz_id(items);
+                } else {
+                    lemma_nz_all_zero(b.container.coupons@);
+                    assert(items =~= Seq::<u32>::empty());
+                    assert(nz(b.container.coupons@) =~= Seq::<u32>::empty());
+                }
+                assert forall|c: u32| b.container.cset().contains(c) <==> a.container.cset().contains(c) by {
+                    lemma_nz_contains(b.container.coupons@, c); lemma_nz_contains(a.container.coupons@, c);
+                }
+                assert(b.container.cset() =~= a.container.cset());
+            }
+            b
+        }
+        Err(_) => { proof { assert(false); } c11_unreachable_list() }
+    }
+}
+#[verifier::external_body] fn c11_unreachable_list() -> List requires false { unreachable!() }
+
+proof fn lemma_perm_contains(l: Seq<u32>, s: Seq<u32>, x: u32)
+  requires sorted_perm_of(l, s)
+  ensures l.contains(x) <==> s.contains(x), l.len() == s.len()
+{
+    reveal(sorted_perm_of);
+    l.to_multiset_ensures();
+    s.to_multiset_ensures();
+    assert(l.contains(x) <==> l.to_multiset().count(x) > 0);
+    assert(s.contains(x) <==> s.to_multiset().count(x) > 0);
+}
+
+proof fn lemma_set_image(img: Seq<u8>, lg_k: u8, lg_arr: u8, tgt: u8, cnt: u32, l: Seq<u32>)
+  requires img == enc_hll_set(lg_k, lg_arr, tgt, true, cnt, l), cnt == l.len()
+  ensures img.len() == 12 + 4 * l.len(), img[4] == lg_arr, img[5] & 8 != 0,
+    le32_val(img.skip(8).take(4)) == cnt, img.skip(8).skip(4).len() == 4 * cnt, dec_u32s(img.skip(8).skip(4), cnt as int) == l
+{
+    lemma_enc_u32s_len(l);
+    lemma_le32_roundtrip(cnt);
+    assert(img.skip(8).take(4) =~= le32_bytes(cnt));
+    assert(img.skip(8).skip(4) =~= enc_u32s(l) + Seq::<u8>::empty());
+    lemma_dec_enc_u32s_all(l, Seq::<u8>::empty());
+    let f = coupon_flags(false, true);
+    assert(img[5] == f);
+    assert(f == 8 ==> (f & 8 != 0)) by (bit_vector);
+}
+proof fn lemma_perm_of_nz(l: Seq<u32>, coupons: Seq<u32>)
+  requires sorted_perm_of(l, nz(coupons))
+  ensures l.len() == nz(coupons).len(), forall|j: int| 0 <= j < l.len() ==> l[j] != 0,
+    forall|c: u32| l.contains(c) <==> (c != 0 && coupons.contains(c))
+{
+    lemma_perm_contains(l, nz(coupons), 0);
+    assert forall|j: int| 0 <= j < l.len() implies l[j] != 0 by {
+        lemma_perm_contains(l, nz(coupons), l[j]); lemma_nz_contains(coupons, l[j]);
+    }
+    assert forall|c: u32| l.contains(c) <==> (c != 0 && coupons.contains(c)) by {
+        lemma_perm_contains(l, nz(coupons), c); lemma_nz_contains(coupons, c);
+    }
+}
+
+fn c11_roundtrip_set(a: &HashSet, lg_config_k: u8, hll_type: HllType) -> (b: HashSet)
+  requires a.container.wf(), a.container.lg_size <= 18, a.wf_load(),
+  ensures
+    /*@C11.set.roundtrip*/ b.container.cset() == a.container.cset() && b.container.len == a.container.len && b.container.lg_size == a.container.lg_size,
+    /*@C11.set.wf*/ b.container.wf(),
+{
+    let img = a.serialize(lg_config_k, hll_type);
+    let ghost l = choose|l: Seq<u32>| sorted_perm_of(l, nz(a.container.coupons@))
+            && img@ == #[trigger] enc_hll_set(lg_config_k, a.container.lg_size as u8, tgt_of(hll_type), true, a.container.len as u32, l);
+    proof {
+        lemma_shl_us(a.container.lg_size);
+        lemma_nz_take_le(a.container.coupons@, 0);
+        lemma_perm_of_nz(l, a.container.coupons@);
+        lemma_set_image(img@, lg_config_k, a.container.lg_size as u8, tgt_of(hll_type), a.container.len as u32, l);
+    }
+    let mut cursor = SketchSlice::new(img.as_slice());
+    let mut hdr = [0u8; 8];
+    let x = cursor.read_exact(&mut hdr);
+    proof { assert(x is Ok); assert(hdr@ =~= img@.take(8)); }
+    let lg_arr = hdr[4] as usize;
+    let compact = (hdr[5] & COMPACT_FLAG_MASK) != 0;
+    let r = HashSet::deserialize(cursor, lg_arr, compact);
+    match r {
+        Ok(b) => {
+            proof {
+                assert(b.container.cset() =~= a.container.cset());
+            }
+            b
+        }
+        Err(_) => { proof { assert(false); } c11_unreachable_set() }
+    }
+}
+#[verifier::external_body] fn c11_unreachable_set() -> HashSet requires false { unreachable!() }
 
 }
 fn main(){}
